@@ -19,8 +19,9 @@ harness/cmd/atp (mode "server": scripted client, real RunATPServer in a supervis
 import os, re, json, glob, random
 from vlib import common
 from props import atp_common as A
+from props import atp_hello as H
 
-SPECS = ["ATPServerEnvMC", "ATPTrace"]
+SPECS = ["ATPServerEnvMC", "ATPTrace", "ATPHelloMC", "ATPHelloTraceMC"]
 PKGS = ["./cmd/atp"]
 
 BAD_VARIANTS = [("bad", "unknown_id"), ("ws", "no_run"), ("ws", "no_step"), ("ws", "payload_type"), ("sig", "no_run"),
@@ -269,6 +270,8 @@ def run(ctx):
                           dict(session=info.get("session"), line=info["line"], prefix=info.get("prefix"),
                                scenario=next((s for s in scen if s["id"] == info.get("session")), None),
                                events=evs[: info["event_index"] + 3], tlc=info.get("tlc_tail", "")))
+    # ------------------------------------------------------------ the server's handshake (spec/ATPHello.tla, SSpec)
+    ctx.extra["handshake_sessions_accepted"] = H.stage_server(ctx, thorough)
     ctx.exhaustive = False
 
 
@@ -291,6 +294,12 @@ def replay(ctx, rp):
     sc = rp["replay"].get("scenario")
     if not sc:
         raise common.Infra("replay file carries no scenario")
+    if sc.get("mode") in ("hello", "hello_srv"):
+        H.play(ctx, [sc], "client" if sc["mode"] == "hello" else "server", "env",
+               describable=sc.get("hello_bad") != "undescribable", label="replayhello")
+        ctx.rule = "replay of one recorded handshake / legacy-framing session"
+        ctx.sample(dict(id=sc.get("id"), ops=sc.get("ops")))
+        return
     rr = A.run_driver(ctx, [sc], jobs=1)[0]
     judge(ctx, sc, rr)
     ctx.sample(dict(id=sc.get("id"), script=sc.get("script"), cut_at=sc.get("cut_at")))
